@@ -26,6 +26,12 @@ type sentFrame struct {
 	f     refcodec.Frame
 	enc   bool
 	hasIV bool
+	// for a protected frame the reference decryptor opened: the full 16-byte nonce it opened under
+	// (base IV of the direction with the leading word advanced), the key, and the op that emitted it
+	opened bool
+	nonce  [16]byte
+	keyID  int
+	opIdx  int
 }
 
 type sep struct {
@@ -104,6 +110,7 @@ func ivStr(iv [16]byte) string {
 type drawnIV struct {
 	iv    [16]byte
 	where string
+	ops   []string // the session up to (not including) the send that carried the IV
 }
 
 var drawnIVs []drawnIV
@@ -122,14 +129,17 @@ func (w *sworld) describe(e *sep, f refcodec.Frame, enc bool) string {
 		e.sent = append(e.sent, sentFrame{f: f, enc: true})
 		return fmt.Sprintf("F(%d,%d,UNOPENABLE:%v)", f.Flag, f.Len, err)
 	}
-	e.sent = append(e.sent, sentFrame{f: f, enc: true, hasIV: o.HadIV})
+	var nn [16]byte
+	copy(nn[:], e.dir.BaseIV[:])
+	binary.BigEndian.PutUint32(nn[:4], o.NonceW0)
+	e.sent = append(e.sent, sentFrame{f: f, enc: true, hasIV: o.HadIV, opened: true, nonce: nn, keyID: e.keyID, opIdx: len(w.ops)})
 	ivs := "iv=-"
 	if o.HadIV {
 		e.iv = e.dir.BaseIV
 		e.ivKnown = true
 		ivs = "iv=" + ivStr(e.iv)
 		if e.keyLine >= 0 { // the IV a SetSymmetricKey call drew (not one restored from a blob)
-			drawnIVs = append(drawnIVs, drawnIV{iv: e.iv, where: fmt.Sprintf("IV draw #%d of the run: endpoint %s, key installed at op %d", len(drawnIVs)+1, e.name, e.keyLine)})
+			drawnIVs = append(drawnIVs, drawnIV{iv: e.iv, where: fmt.Sprintf("IV draw #%d of the run: endpoint %s, key installed at op %d", len(drawnIVs)+1, e.name, e.keyLine), ops: append([]string{}, w.ops...)})
 		}
 	}
 	aad := "aad=H"
